@@ -37,8 +37,8 @@ impl <T: ArrayElement> ArrayCount<T> for Array<T> {
     fn count_nonzero(&self, axis: Option<isize>, keepdims: Option<bool>) -> Result<Array<usize>, ArrayError> {
         if let Some(axis) = axis {
             let axis = self.normalize_axis(axis);
-            let result = self.apply_along_axis(axis, |arr| arr.count_nonzero(None, keepdims));
-            if keepdims == Some(true) { result }
+            let result = self.apply_along_axis(axis, |arr| arr.count_nonzero(None, keepdims))?;
+            if keepdims == Some(true) { Ok(result) }
             else { result.reshape(&self.get_shape()?.remove_at(axis)) }
         } else {
             let result = Array::single(self
